@@ -898,9 +898,21 @@ namespace
         const World &w;
         long c;
         bool fired = false;  // one routine application reports its first failing clause only (causes, not consequences)
-        void viol(const std::string &clause, const std::string &routine, const std::string &detail, J j)
+        // directionBug: the witness shows that the routine validated the motion in the opposite direction only
+        void viol(const std::string &clause, const std::string &routine, const std::string &detail, J j, bool directionBug = false)
         {
             if (fired) return;
+            // Dubins distance and interpolation are discontinuous in their arguments: a 1-ulp perturbation of an interpolated
+            // vertex can switch the optimal word and change the curve by about 2*pi*rho. "The same curve, re-segmented" is
+            // therefore not numerically well defined there, and the clauses that compare lengths / costs / dense validity
+            // of re-segmented curves are statistics in the asymmetric space -- except when the witness itself shows a
+            // direction bug (motion validated only in the reverse direction) and for the hybridization graph
+            if (!w.space->hasSymmetricInterpolate() && !directionBug &&
+                (clause == "invalid-stretch" || clause == "length-changed" || clause == "cost-worse" || clause == "longer"))
+            {
+                sink.count("c17_asym_stat_" + clause + "_" + routine);
+                return;
+            }
             fired = true;
             std::string key = "C17:" + clause + ":" + routine;
             if (!detail.empty()) key += ":" + detail;
@@ -1202,6 +1214,8 @@ namespace
                 sink.count("c17_stat_simplify_false_with_invalid_stretch");  // the routine itself said: not valid
             else if (d1 > 2.0)
             {
+                const bool onlyReversed = wseg >= 0 && (size_t)wseg + 1 < n1 && !mv->ok.count(mv->h(q.getState(wseg), q.getState(wseg + 1))) &&
+                                          mv->ok.count(mv->h(q.getState(wseg + 1), q.getState(wseg))) > 0;
                 V.viol("invalid-stretch", rn, "",
                        J().num("stretch_in_resolution_lengths", d1).num("input_stretch", d0).i("worst_segment", wseg)
                            .b("segment_validated_as_given",
@@ -1210,7 +1224,8 @@ namespace
                               wseg >= 0 && (size_t)wseg + 1 < n1 && !mv->ok.count(mv->h(q.getState(wseg), q.getState(wseg + 1))) &&
                                   mv->ok.count(mv->h(q.getState(wseg + 1), q.getState(wseg))) > 0)
                            .obj("params", par)
-                           .arr("input", flat(w, P)).arr("output", flat(w, q)));
+                           .arr("input", flat(w, P)).arr("output", flat(w, q)),
+                       onlyReversed);
                 bad = true;
             }
             if (!returned)
